@@ -313,6 +313,7 @@ def c044(ctx):
         ctx.ob('C04.4', tr, 'stream-identity-checked', kinds == {'stream_kind', 'stream_id'}, 'a sidecar line is accepted only when its stream kind and stream id match (checked: %s)' % sorted(kinds), line=pu.line)
     guarded_answers(ctx)
     c048(ctx)
+    c049(ctx)
     # ---- C04.6
     rp = P.fn('ripd::continuities::ContinuityStore::replay_events')
     ctx.touch(rp)
@@ -423,3 +424,25 @@ def c048(ctx):
             ctx.ob('C04.8', f, 'parse-failure-propagates', e is not None and e[1] is not None,
                    'parse of cache bytes %s' % ('propagates failure with `?`' if e else 'does NOT propagate failure: unparsable bytes are silently skipped / defaulted'), line=s.line)
     ctx.floor('C04.8', 'parse sites in the cache modules', n, 20)
+
+
+def c049(ctx):
+    """a cache that does not validate is rebuilt or ignored — never trimmed in place until it
+    validates again: resizing (File::set_len) is only done on a fresh file the same function
+    created."""
+    P = ctx.prog
+    ctx.rule('C04.9', 'no in-place repair: every File::set_len in the store code is applied to a handle the same function obtained from File::create (a fresh file that is being built, usually a tmp renamed into place). Trimming an existing sidecar / index to a "valid" length makes a torn file pass its length checks while its content no longer lines up with truth.')
+    n = 0
+    for p, f in sorted(P.fns.items()):
+        if f.crate not in ('ripd', 'rip_log'):
+            continue
+        for s in f.calls(r'^std::fs::File::set_len$|^tokio::fs::File::set_len$'):
+            n += 1
+            src = sources(f, s.args[0])
+            fresh = any(x[0] == 'call' and re.search(r'fs::File::create(_new)?$', x[1]) for x in src)
+            other = sorted({x[1].rsplit('::', 2)[-2] + '::' + x[1].rsplit('::', 1)[-1] for x in src if x[0] == 'call' and not re.search(r'fs::File::create(_new)?$', x[1])})
+            ok = fresh and not other
+            ctx.ob('C04.9', f, 'resize-only-fresh-file', ok,
+                   'set_len is applied to %s' % ('a file this function just created' if ok else
+                                                 'an EXISTING file (%s): a torn cache is trimmed until it passes validation instead of being rebuilt from truth' % (', '.join(other) or 'handle not created here')), line=s.line)
+    ctx.floor('C04.9', 'File::set_len sites in the store code', n, 3)
